@@ -223,11 +223,16 @@ def compare(ctx, cases, impl, model, variant):
                 bad = True
                 base = kind.split("-")[0]
                 kkey = base if base in ("env", "enc") else kind       # EnvelopedData / EncryptedData: one finding, however many parties
-                why_ = ("the format carries no integrity protection" if base in ("env", "enc") else
+                why_ = ("the format carries no integrity protection; every accepted change left a strictly valid padding (changes that break the padding are counted under broken-padding-accepted)" if base in ("env", "enc") else
                         "the content is signed, so these are changes that leave the plaintext intact: sm4_cbc_padding_decrypt looks at the last padding byte only, flips that land in the other padding bytes pass")
                 ctx.violation("tamper:%s:iv-or-ciphertext-bitflip-accepted" % kkey,
                               "single-bit changes of the IV / SM4-CBC ciphertext of a %s message are accepted (%s in the IV, %s in the ciphertext of %s tried): %s [%s]" % (kind, m.get("iv"), m.get("ciphertext"), m.get("tried"), why_, variant),
                               {"kind": "failing-input", "op": line, "impl": a, "expected": "0 accepted", "variant": variant}, True)
+            if int(m.get("brokenpadding", 0)):
+                bad = True
+                ctx.violation("tamper:%s:broken-padding-accepted" % kind.split("-")[0],
+                              "%s changes of a %s message are accepted although what was sent does not decrypt to a valid PKCS #7 padding [%s]: %s" % (m.get("brokenpadding"), kind, variant, a),
+                              {"kind": "failing-input", "op": line, "impl": a, "expected": "refused", "variant": variant}, True)
             if int(m.get("faults", 0)):
                 bad = True
                 ctx.violation("tamper:%s:memory-fault" % kind, "a single-bit change makes the parser fault (sanitizer abort) instead of failing [%s]: %s" % (variant, a),
